@@ -2,8 +2,9 @@
 
 Implementation side: random grammars (common / abstract / match rules, recursive
 containment, abstract containment attributes, references to named objects anywhere in
-the model — also up the tree —, objects that are in no attribute, user classes) and models
-derived from them (harness/objgen.py).  On the loaded model: `parent` of every contained
+the model — also up the tree —, objects that are in no attribute, user classes — also with
+special methods that make their instances falsy / container-like (empty = falsy) / iterable /
+unhashable —) and models derived from them (harness/objgen.py).  On the loaded model: `parent` of every contained
 object, `get_model` of every object, and a batch of `get_children`,
 `get_children_of_type`, `get_parent_of_type` calls with random selectors, roots, orders
 and `should_follow` predicates.
@@ -27,6 +28,29 @@ class _Unknown:
 
 def uses_parent_attr(case):
     return any(e.get("attr") == "parent" for r in case["gram"]["rules"] if r["kind"] == "common" for e in r["elems"])
+
+
+def focus_unusual_single(rng, gram):
+    """make sure the combination 'instance of a user class with special methods held by a
+    single-valued containment attribute' (c=C, (c=C)?, lead= / tail= children, also through an
+    abstract rule) is frequent: the class behind one such attribute becomes a user class with traits"""
+    R = G.rules_of(gram)
+    singles = [e for ru in gram["rules"] if ru["kind"] == "common" for e in ru["elems"]
+               if e["k"] == "cont" and e["mult"] in ("one", "opt")]
+    if not singles:
+        return
+    e = rng.choice(singles)
+    leaves = sorted(G.instances_of(gram, e["target"]))
+    if not leaves:
+        return
+    ru = R[rng.choice(leaves)]
+    if not ru.get("user"):
+        ru["user"] = rng.choice(["store", "child", "eq"])
+    traits = set(ru.get("traits") or ())
+    traits.add(rng.choice(G.TRAITS))
+    if rng.chance(0.3):
+        traits.add(rng.choice(G.TRAITS))
+    ru["traits"] = sorted(traits)
 
 
 def spec_gen(rng, exp, classes):
@@ -88,14 +112,16 @@ class Prop(Check):
     QUICK_CASES = 300
     THOROUGH_CASES = 6000
     PROCS_THOROUGH = 4
-    RULE = ("random grammar (2-6 common rules, abstract and match rules, recursion, references, user classes) + derived "
+    RULE = ("random grammar (2-6 common rules, abstract and match rules, recursion, references, user classes incl. "
+            "falsy / container-like / iterable / unhashable ones) + derived "
             "model + 6-14 navigation calls; non-trivial = model with >= 4 contained objects, nesting depth >= 2, at "
             "least one resolved reference to an object, and a get_children call whose result is a non-empty proper "
             "subset of the objects below its root")
     MODELLED = ("hand-modelled: model.py get_model / get_parent_of_type / get_children(+_of_type) (Obj/Nav.lean) and "
                 "process_node's instance stack, parent assignment and attribute filling (Obj/Build.lean); tie X: real "
                 "heap dump -> Lean navigation functions (exact result lists), real Arpeggio parse tree -> Lean "
-                "process_node (parent links, containment lists); not exhibited: user classes that override "
+                "process_node (parent links, containment lists; bool(obj) of the generated user classes is the model's "
+                "truthiness parameter); not exhibited: user classes that override "
                 "attribute access or define __slots__, object processors replacing objects (C13), grammars whose rule is "
                 "named 'sep'")
     ASSUMPTIONS = [
@@ -109,13 +135,15 @@ class Prop(Check):
     def gen(self, rng, n, tier):
         for k in range(n):
             r = rng.fork(f"case{k}")
-            gram = G.gen_grammar(r)
+            gram = G.gen_grammar(r, want_traits=True, p_user=0.3)
             if r.chance(0.04):
                 # an attribute that happens to be called like textX's own container link
                 els = [e for ru in gram["rules"] if ru["kind"] == "common" for e in ru["elems"]
                        if e["k"] in ("prim", "cont") and not e.get("bare")]
                 if els:
                     r.choice(els)["attr"] = "parent"
+            if r.chance(0.15):
+                focus_unusual_single(r, gram)
             tree = G.derive(r, gram, maxdepth=r.randint(2, 5))
             _, exp = G.expected(gram, tree, PLAIN)
             layout = PLAIN if r.chance(0.7) else G.gen_layout(r, gram, len([1 for x in G.tokens(gram, tree) if x[0] == "tok"]))
@@ -241,8 +269,14 @@ class Prop(Check):
                 answers.append({"exc": "RecursionError"})
             except Exception as e:
                 answers.append({"exc": type(e).__name__, "msg": str(e)[:200]})
+        truth = []
+        for ro in real:
+            try:
+                truth.append(bool(ro))
+            except Exception:
+                truth.append(None)
         obs = {"outcome": "ok", "n": n, "heap": heap, "parents": parents, "models": models, "answers": answers,
-               "unknown": unknown[:10], "names": names}
+               "unknown": unknown[:10], "names": names, "truth": truth}
         obs.update(self.dump_ptree(L, names))
         return obs
 
@@ -275,7 +309,8 @@ class Prop(Check):
             qs.append(["model", i])
         reqs = [{"op": "nav", "heap": heap, "q": qs}]
         if obs.get("ptree") is not None:
-            reqs.append({"op": "build", "mm": obs["mm"], "tree": obs["ptree"]})
+            reqs.append({"op": "build", "mm": obs["mm"], "tree": obs["ptree"],
+                         "truth": G.truth_spec(case["gram"], names)})
         return {"op": "multi", "reqs": reqs}
 
     def compare(self, case, obs, out):
@@ -441,6 +476,34 @@ class Prop(Check):
             outcomes[k] = outcomes.get(k, 0) + 1
         nq = sum(len(c.get("queries", [])) for c in cases)
         user = sum(1 for c in cases if any(r.get("user") for r in c["gram"]["rules"]))
+        traits = {}
+        for c in cases:
+            for t in sorted({t for r in c["gram"]["rules"] for t in (r.get("traits") or ())}):
+                traits[t] = traits.get(t, 0) + 1
+        # where the falsy objects sit (single-valued / list containment attribute, root) and how often
+        # a navigation call had to go through one
+        falsy = {"cases": 0, "objects": 0, "in_single_valued_attr": 0, "in_list_attr": 0, "root": 0,
+                 "with_children": 0, "calls_returning_one": 0}
+        for c, o in zip(cases, obs):
+            if not (isinstance(o, dict) and o.get("outcome") == "ok" and "truth" in o):
+                continue
+            fs = {i for i, t in enumerate(o["truth"]) if not t}
+            if not fs:
+                continue
+            falsy["cases"] += 1
+            falsy["objects"] += len(fs)
+            falsy["root"] += 1 if 0 in fs else 0
+            _, exp = G.expected(c["gram"], c["tree"], PLAIN)
+            for e in exp:
+                for attr, kind, vals, many in e["attrs"]:
+                    if kind == "cont":
+                        k = sum(1 for v in vals if v in fs)
+                        falsy["in_list_attr" if many else "in_single_valued_attr"] += k
+            falsy["with_children"] += len({e["parent"] for e in exp if e["parent"] in fs})
+            for got in o["answers"]:
+                if isinstance(got, list) and fs & set(got):
+                    falsy["calls_returning_one"] += 1
         return {"distribution": {"outcomes": outcomes, "objects_total": sum(sizes), "objects_max": max(sizes or [0]),
                                  "navigation_calls": nq, "cases_with_user_classes": user,
+                                 "cases_per_user_class_trait": traits, "falsy_objects": falsy,
                                  "cases_from_file": sum(1 for c in cases if c.get("file"))}}
